@@ -143,6 +143,22 @@ Theorem C14_writer_serial_range : forall ms s, Reply.c_seq (Reply.final (Reply.i
 Proof. exact writer_seq_range. Qed.
 Print Assumptions C14_writer_serial_range.
 
+(* between parse and the writer: the reader loop (Model/Reply.v reader_look / reader_send) forwards a
+   generated re-request (id 0x8003, first in its pending input) to reissuePackChan without any
+   callback, and never drops it: with room in the channel (capacity 3) it is appended; with the
+   channel full the reader keeps it in hand - the blocking send - until the writer has taken one
+   (seeded bug C14-6 replaced exactly this by a drop) *)
+Theorem C14_reader_forwards : forall (c : Reply.conn) d rest,
+  Reply.c_hand c = None -> Reply.c_pending c = d :: rest -> m_id (Reply.d_m d) = 32771 ->
+  let c1 := fst (Reply.reader_look c) in
+  Reply.c_hand c1 = Some d /\ Reply.c_pending c1 = rest /\ snd (Reply.reader_look c) = [] /\
+  Reply.c_rq c1 = Reply.c_rq c /\
+  (if len (Reply.c_rq c1) <? 3
+   then Reply.c_rq (fst (Reply.reader_send c1)) = Reply.c_rq c1 ++ [d] /\ Reply.c_hand (fst (Reply.reader_send c1)) = None
+   else fst (Reply.reader_send c1) = c1).
+Proof. exact reader_forwards. Qed.
+Print Assumptions C14_reader_forwards.
+
 (* ---- non-vacuity and the limit of the property's quantifier ---- *)
 Definition ex_pkt (id sum no serial : N) (body : list N) : msg :=
   {| m_id := id; m_len := len body; m_enc := 0; m_frag := (if sum =? 0 then 0 else 1); m_ver := 0;
@@ -198,3 +214,16 @@ Example C14_example_frame :
     Ok {| m_id := 32771; m_len := 9; m_enc := 0; m_frag := 0; m_ver := 0; m_bcd := [1; 35; 69; 103; 137; 1];
           m_serial := 7; m_sum := 0; m_no := 0; m_body := [18; 52; 3; 0; 2; 0; 3; 0; 5]; m_check := 36 |}.
 Proof. split. unfold decoded_header, bytes; cbn; repeat split; try reflexivity; repeat constructor. vm_compute. reflexivity. Qed.
+
+(* the writer side on a concrete state: the re-request of C14_example_frame alone in the channel,
+   platform serial 7: one write, serial 8 afterwards, the bytes on the wire *)
+Example C14_example_writer :
+  let x := {| x_slots := [[1]; []; []; [4]; []]; x_create := 0; x_update := 100; x_first := ex_pkt 2049 5 1 4660 [1] |} in
+  let p := rereq_pmsg (mk_rereq 2049 x) in
+  let d := {| Reply.d_m := p_msg p; Reply.d_complete := false; Reply.d_data := p_raw p |} in
+  let c := {| Reply.c_pending := []; Reply.c_hand := None; Reply.c_q := []; Reply.c_rq := [d]; Reply.c_seq := 7;
+              Reply.c_h := Reply.hstate0 |} in
+  Reply.c_seq (fst (Reply.writer_rereq c)) = 8 /\ Reply.c_rq (fst (Reply.writer_rereq c)) = [] /\
+  map (fun o => match o with Reply.OWrite w => Reply.wire_bytes w | _ => [] end) (firstn 1 (snd (Reply.writer_rereq c))) =
+    [[126; 128; 3; 0; 9; 1; 35; 69; 103; 137; 1; 0; 7; 18; 52; 3; 0; 2; 0; 3; 0; 5; 36; 126]].
+Proof. vm_compute. repeat split; reflexivity. Qed.
